@@ -21,6 +21,7 @@
 //   T exhaust <scn> <arena id> <block_count> <successful allocations> <null seen 0|1>
 //   T fallback <scn> <allocations of the default heap after all non-exclusive arenas are full> <nulls>
 //   T count <scn> <name> <value>
+//   T rss <scn> <max resident KiB of the scenario's process>
 //   T end <scn>
 //
 // The oracle on the T records is in tools/props/C15.py.
@@ -33,6 +34,8 @@
 #include <signal.h>
 #include <sys/mman.h>
 #include <sys/wait.h>
+#include <sys/resource.h>
+#include <sys/prctl.h>
 #include <unistd.h>
 #include "prng.h"
 
@@ -465,14 +468,22 @@ int main(int argc, char** argv) {
       fflush(stdout);
       pid_t pid = fork();
       if (pid == 0) {
-        signal(SIGSEGV, on_fatal); signal(SIGBUS, on_fatal); signal(SIGFPE, on_fatal); signal(SIGABRT, on_fatal);
+        // resource bounds of one scenario (a broken allocator may loop reserving segments): 24 GiB of address space (the
+        // arenas are MAP_NORESERVE mappings that are barely touched), no transparent huge pages (touching 64 KiB of a fresh
+        // segment must not make 2 MiB resident), 90 s (quick) / 300 s of wall time, and death with the parent
+        struct rlimit rl; rl.rlim_cur = rl.rlim_max = (rlim_t)24 << 30; setrlimit(RLIMIT_AS, &rl);
+        prctl(PR_SET_THP_DISABLE, 1, 0, 0, 0);
+        prctl(PR_SET_PDEATHSIG, SIGKILL);
+        alarm(THOROUGH ? 300 : 90);
+        signal(SIGSEGV, on_fatal); signal(SIGBUS, on_fatal); signal(SIGFPE, on_fatal); signal(SIGABRT, on_fatal); signal(SIGALRM, on_fatal);
         SCN = name; prng_seed(&G, s);
         SCNS[i].fn();
         printf("T end %s\n", name);
         fflush(stdout);
         _exit(0);
       }
-      int status = 0; waitpid(pid, &status, 0);
+      int status = 0; struct rusage ru; memset(&ru, 0, sizeof(ru)); wait4(pid, &status, 0, &ru);
+      printf("T rss %s %ld\n", name, (long)ru.ru_maxrss);   // KiB
       if (!WIFEXITED(status) || WEXITSTATUS(status) != 0)
         printf("T crash %s %d\n", name, WIFSIGNALED(status) ? WTERMSIG(status) : 1000 + WEXITSTATUS(status));
       fflush(stdout);
